@@ -1,9 +1,9 @@
 (* C07 -- arguments reach the user method unchanged for any parameter shape or name; no capture.
    Statements only; proofs live in Gen/FlattenThm.v, Sdpl/WfC07.v, Runtime/Combined.v.
 
-   Full-strength statement that is FALSE of the faithful model (and of the real macro):
-     forall ps qs, flat_arguments ps = Some qs -> NoDup (flat_map binders (map fst ps)) -> NoDup (map fst qs)
-   (distinct binders always give distinct generated identifiers) - see C07_distinct_guarded / C07_distinct_refuted. *)
+   The model follows the repaired generator: the internal binder of the actor is `inter_actor` (a parameter named `actor` is an
+   ordinary identifier), two parameters flattened to one identifier / a flattened reserved name are a naming-conflict diagnostic
+   (`AConflict`), so "distinct binders give distinct identifiers" now holds of every successful flattening without a guard. *)
 From Coq Require Import List String Arith Bool.
 Import ListNotations.
 From IT Require Import Sdpl.IR Sdpl.Elab Sdpl.Wf Sdpl.WfC07 Runtime.Actor Runtime.ActorInv Runtime.Combined Gen.Flatten Gen.FlattenThm.
@@ -11,36 +11,56 @@ From IT Require Import Sdpl.IR Sdpl.Elab Sdpl.Wf Sdpl.WfC07 Runtime.Actor Runtim
 (* ---- generator: pattern flattening, for all parameter lists (types T opaque) ---- *)
 
 (* one identifier per parameter, in the same position, with the same type; an identifier pattern keeps its name whatever its ref / mut *)
-Theorem C07_flatten_positions : forall (T : Type) (ps : list (pat * T)) qs, live_args ps = Some qs ->
+Theorem C07_flatten_positions : forall (T : Type) (ps : list (pat * T)) qs, live_args ps = AOk qs ->
   List.length qs = List.length ps /\ map snd qs = map snd ps /\
   (forall i r m x t, nth_error ps i = Some (PIdent r m x, t) -> nth_error qs i = Some (x, t)).
 Proof.
-  intros T ps qs H. rewrite live_args_flat in H. destruct (flat_positions ps qs H) as (L & M & N). repeat split; auto.
+  intros T ps qs H. apply live_args_ok in H. destruct (flat_from_positions ps [] qs H) as (L & M & N). repeat split; auto.
   intros i r m x t Hn. destruct (N i _ _ Hn) as (s & E & Hq). cbn in E. injection E as <-. exact Hq.
 Qed.
 
 (* the identifier of a flattened pattern is its binders joined by `_` (`__` for a composite pattern that binds nothing) *)
-Theorem C07_flatten_names : forall (T : Type) (ps : list (pat * T)) qs, live_args ps = Some qs ->
+Theorem C07_flatten_names : forall (T : Type) (ps : list (pat * T)) qs, live_args ps = AOk qs ->
   map fst qs = map (fun q => join (words (fst q))) ps.
-Proof. intros T ps qs H. rewrite live_args_flat in H. exact (flat_names ps qs H). Qed.
+Proof. intros T ps qs H. apply live_args_ok in H. exact (flat_from_names ps [] qs H). Qed.
 
-(* the macro aborts exactly when a parameter is outside the documented pattern forms *)
+(* the macro expands exactly when every parameter is of a documented pattern form, the identifiers are pairwise distinct and no
+   flattened pattern produces a name the generated code binds itself; in every other case it answers with a diagnostic *)
 Theorem C07_flatten_total : forall (T : Type) (ps : list (pat * T)),
-  live_args ps = None <-> forallb (fun q => supported_param (fst q)) ps = false.
-Proof. intros T ps. rewrite live_args_flat. apply flat_total. Qed.
+  (exists qs, live_args ps = AOk qs) <->
+  forallb (fun q => supported_param (fst q)) ps = true /\ NoDup (names ps) /\ no_flat_reserved ps.
+Proof.
+  intros T ps. split.
+  - intros (qs & H). apply live_args_ok in H. destruct (proj1 (flat_from_ok_iff ps []) (ex_intro _ qs H)) as (A & B & _ & C). auto.
+  - intros (A & B & C). destruct (proj2 (flat_from_ok_iff ps [])) as (qs & H); [repeat split; auto|]. exists qs. apply live_args_ok, H.
+Qed.
 
 (* `ref` / `mut` anywhere in a pattern never changes the generated identifier *)
 Theorem C07_ref_mut_irrelevant : forall p, flat_pat (strip_all p) = flat_pat p.
 Proof. exact strip_all_flat. Qed.
 
-(* distinct binders give distinct generated identifiers - when no binder contains `_` and no composite pattern is empty *)
-Theorem C07_distinct_guarded : forall (T : Type) (ps : list (pat * T)) qs, live_args ps = Some qs ->
-  plain_words (map fst ps) = true -> NoDup (flat_map binders (map fst ps)) -> NoDup (map fst qs).
-Proof. intros T ps qs H. rewrite live_args_flat in H. exact (flat_distinct_guarded ps qs H). Qed.
+(* distinct identifiers OR a diagnostic: whenever the flattening succeeds the handle parameters are pairwise distinct and none
+   of the flattened ones is reserved - no guard on the binders any more *)
+Theorem C07_distinct_or_diag : forall (T : Type) (ps : list (pat * T)),
+  match live_args ps with
+  | AOk qs => NoDup (map fst qs) /\ no_flat_reserved ps
+  | AAbort | AConflict _ => True
+  end.
+Proof.
+  intros T ps. destruct (live_args ps) as [qs| |] eqn:H; auto. apply live_args_ok in H. exact (flat_distinct ps qs H).
+Qed.
 
-Theorem C07_distinct_refuted : exists (ps : list (pat * unit)) qs, live_args ps = Some qs /\
-  NoDup (flat_map binders (map fst ps)) /\ ~ NoDup (map fst qs).
-Proof. destruct flat_distinct_refuted as (ps & qs & H & R). exists ps, qs. rewrite live_args_flat. auto. Qed.
+(* the diagnostic is not spurious: documented patterns with distinct `_`-free binders, no empty composite pattern and no flattened
+   reserved name always expand *)
+Theorem C07_no_spurious_diag : forall (T : Type) (ps : list (pat * T)), forallb (fun q => supported_param (fst q)) ps = true ->
+  plain_words (map fst ps) = true -> NoDup (flat_map binders (map fst ps)) -> no_flat_reserved ps ->
+  exists qs, live_args ps = AOk qs.
+Proof. intros T ps S P N R. destruct (flat_no_spurious ps S P N R) as (qs & H). exists qs. apply live_args_ok, H. Qed.
+
+(* the former counterexamples (`(a, b)` with `a_b`; `(..)` with `[..]`; `(inter, send)`) are naming-conflict diagnostics *)
+Theorem C07_collision_diag : live_args collide_witness = AConflict "a_b"%string /\ NoDup (flat_map binders (map fst collide_witness))
+  /\ live_args collide_witness2 = AConflict "__"%string /\ live_args collide_witness3 = AConflict "inter_send"%string.
+Proof. exact collide_diag. Qed.
 
 (* ---- the real expansion (named IR), for all instances that satisfy the decidable premise ---- *)
 Section C07.
@@ -94,8 +114,9 @@ Print Assumptions C07_flatten_positions.
 Print Assumptions C07_flatten_names.
 Print Assumptions C07_flatten_total.
 Print Assumptions C07_ref_mut_irrelevant.
-Print Assumptions C07_distinct_guarded.
-Print Assumptions C07_distinct_refuted.
+Print Assumptions C07_distinct_or_diag.
+Print Assumptions C07_no_spurious_diag.
+Print Assumptions C07_collision_diag.
 Print Assumptions C07_arguments_unchanged.
 Print Assumptions C07_result_unchanged.
 Print Assumptions C07_static_delegates.
